@@ -235,6 +235,37 @@ func TestC11Exhaustive(t *testing.T) {
 
 func c11Gen(t *rapid.T) c11Case {
 	var c c11Case
+	if vcase.OneIn(t, 8, "special") {
+		switch rapid.IntRange(0, 2).Draw(t, "specialkind") {
+		case 0:
+			// all values equal, any sizes (both paths): must be ErrSamplesEqual
+			n1, n2 := rapid.IntRange(1, 60).Draw(t, "en1"), rapid.IntRange(1, 60).Draw(t, "en2")
+			val := float64(rapid.IntRange(-3, 9).Draw(t, "eval"))
+			for i := 0; i < n1; i++ {
+				c.X1 = append(c.X1, val)
+			}
+			for i := 0; i < n2; i++ {
+				c.X2 = append(c.X2, val)
+			}
+			return c
+		default:
+			// approximate path with U within 1 of its mean: one or two values of the first
+			// sample placed around the median of a large untied (or lightly tied) second sample
+			n2 := rapid.IntRange(51, 60).Draw(t, "mn2")
+			for i := 1; i <= n2; i++ {
+				c.X2 = append(c.X2, float64(i))
+			}
+			n1 := rapid.IntRange(1, 2).Draw(t, "mn1")
+			for i := 0; i < n1; i++ {
+				pos := float64(n2/2+rapid.IntRange(-1, 1).Draw(t, "mpos")) + rapid.SampledFrom([]float64{0, 0.5}).Draw(t, "mhalf")
+				c.X1 = append(c.X1, pos)
+			}
+			if rapid.Bool().Draw(t, "mswap") {
+				c.X1, c.X2 = c.X2, c.X1
+			}
+			return c
+		}
+	}
 	kind := rapid.IntRange(0, 5).Draw(t, "kind")
 	size := func(label string) int {
 		switch kind {
